@@ -31,6 +31,22 @@ CHECKS = {
             "NaN pattern) below the bound against textbook references; statsmodels adapters against "
             "direct statsmodels calls with the same options",
             "4/C11", TRUST + "Small tagged value alphabets; Theta judged against the composition of its documented parts."),
+    "C05": ("exploration", "E1", E1 + " with recording regressors (call-recording doubles)",
+            "every (n, window, horizon subset, strategy, scitype, exogenous columns, fit/update history) "
+            "below the bound: the arrays the wrapped regressor really received are compared with a "
+            "plain-loop reference tabulariser, a tag-decoding leak monitor, and token tracing of "
+            "recursive/dirrec feedback at predict time",
+            "4/C05", TRUST + "'all full windows' read as: every window for which the whole horizon fits."),
+    "C07": ("exploration", "E1", E1 + " with an honest per-fold loop and a call-log leak monitor",
+            "every (splitter, window, step, horizon, n, strategy, scoring, forecaster, X, return_data) "
+            "below the bound: each row of evaluate's table equals an honest fresh-clone fit/update, "
+            "predict and metric(y_true, y_pred); a recording forecaster's log shows no observation "
+            "at/after a fold's first test point before its prediction",
+            "4/C07", TRUST + "Splitters themselves are C01's subject; timing columns ignored."),
+    "C18": ("exploration", "E1", E1 + " with an independent tokenizer of the written text",
+            "write->load round trips over the full option/value/label product, cross-format agreement "
+            "of the bundled datasets, and train-then-test order of every bundled loader",
+            "4/C18", TRUST + "Bundled files are printed at different precision per format (compared to one unit of the last printed digit)."),
 }
 
 PENDING_REASON = "check not built yet in this round; planned in DESIGN.md section 4 (engine listed there)"
